@@ -34,6 +34,7 @@ type vfChainT struct {
 	sender     common.Address
 	contract   common.Address
 	otherLog   bool // an unrelated log of the same contract that does not match
+	secondLog  bool // a second matching log in the block after the first one
 }
 
 type vfTablesT struct {
@@ -121,6 +122,9 @@ func vfStubFilterLogs(c *ethclient.Client, ctx context.Context, q ethereum.Filte
 	if vfChain.logInRange && from <= vfChain.logBlock && vfChain.logBlock <= to {
 		out = append(out, types.Log{Address: vfChain.contract, BlockNumber: vfChain.logBlock})
 	}
+	if vfChain.secondLog && from <= vfChain.logBlock+1 && vfChain.logBlock+1 <= to {
+		out = append(out, types.Log{Address: vfChain.contract, BlockNumber: vfChain.logBlock + 1})
+	}
 	return out, nil
 }
 
@@ -162,6 +166,7 @@ func vfScenario() vfTablesT {
 	c.expiry, c.eon = vfU64("expiry"), vfU64("eon")
 	vfAssume(c.expiry < 1<<62 && c.eon < 1<<62)
 	c.prefix, c.sender, c.contract = vfAny[[32]byte]("prefix"), vfAny[common.Address]("sender"), vfAny[common.Address]("contract")
+	c.secondLog = false
 	c.otherLog = false // T matches every log of its contract, and the filter returns only logs of that contract
 	pre := vfTablesT{registered: vfBool("pre.registered"), regBlock: vfI64("pre.regblock"), decrypted: vfBool("pre.decrypted"), fired: vfBool("pre.fired"),
 		firedBlock: vfI64("pre.firedblock"), synced: true, syncedTo: int64(c.a) - 1}
@@ -218,6 +223,33 @@ func H_C16_batching() {
 		vfReach("does-not-fire")
 	}
 	vfAssert(batched.syncedTo == int64(a+1) && blockwise.syncedTo == int64(a+1), "position-advanced-to-the-end-of-the-segment")
+}
+
+// A trigger fires at most once, and WHICH log fired it is part of the stored state (a later reorg
+// removes fired rows by their block): with two matching logs in consecutive blocks the fired row
+// records the first one, whether the two blocks are synced in one step or one by one.
+func H_C16_first_matching_log_wins() {
+	pre := vfScenario()
+	vfAssume(pre.registered && !pre.fired && !pre.decrypted && !vfChain.regInRange)
+	vfAssume(vfChain.logInRange && vfChain.logBlock == vfChain.a && vfChain.expiry >= vfChain.a+1)
+	vfChain.secondLog = true
+	defer func() { vfChain.secondLog = false }()
+	s := vfSyncer()
+	a := vfChain.a
+	vfTab = pre
+	_, err := s.syncRange(context.Background(), a, a+1)
+	vfAssert(err == nil, "no-error")
+	batched := vfTab
+	vfTab = pre
+	_, err = s.syncRange(context.Background(), a, a)
+	vfAssert(err == nil, "no-error")
+	_, err = s.syncRange(context.Background(), a+1, a+1)
+	vfAssert(err == nil, "no-error")
+	blockwise := vfTab
+	vfAssert(batched.fired && blockwise.fired, "fires-in-both-schedules")
+	vfAssert(blockwise.firedBlock == int64(a), "blockwise-sync-records-the-first-matching-log")
+	vfAssert(batched.firedBlock == blockwise.firedBlock, "fired-row-independent-of-batching")
+	vfReach("two-matching-logs")
 }
 
 // one fetch is exact: every returned event pairs the active trigger with a log of the range that
